@@ -45,4 +45,34 @@ def functionMembership (F : Fn α) (tbl : Table) (formula : String) (fvars evars
       | none => .error .value
 
 end
+
+/-! ## the evaluation as `Function.Node.evaluate` / `Function.evaluate` / `Function.membership` perform it, for any
+    type `V` of values (tied to the source by `C17.code_nodeEvaluate`, `code_functionEvaluate`, `code_functionMembership`) -/
+
+/-- the interpretation `Node.evaluate` works with: a leaf is the scalar of `float(token)` when the token is the text
+    of a number and otherwise the value the map of variables gives its name (`none`: no map, or the name is not a
+    key); the elements mean what `sem` says (`sem.leaf` is not used) -/
+def nodeSem {V : Type} (sem : Sem V) (const : X Rat → V) (lv : Option (List (String × V))) : Sem V :=
+  { leaf := fun s => match parseFloat s with
+      | some x => some (const x)
+      | none => lv.bind (fun d => lookupLast d s),
+    ap0 := sem.ap0, ap1 := sem.ap1, ap2 := sem.ap2 }
+
+/-- `Function.evaluate(variables)` of a term whose loaded tree is `root`: `RuntimeError` when it is not loaded,
+    `ValueError` when a variable has no substitution -/
+def evaluateOf {V : Type} (S : Sem V) (root : Option Expr) : Except ErrKind V :=
+  match root with
+  | none => .error .runtime
+  | some e =>
+    match evalTree S e with
+    | some v => .ok v
+    | none => .error .value
+
+/-- `Function.membership(x)` of a term whose loaded tree is `root` (`evars`: the engine's variables, `[]` without engine) -/
+def membershipOf {V : Type} (sem : Sem V) (const : X Rat → V) (root : Option Expr) (fvars evars : List (String × V)) (x : V) :
+    Except ErrKind V :=
+  match membershipEnv fvars evars x with
+  | .error k => .error k
+  | .ok env => evaluateOf (nodeSem sem const (some env)) root
+
 end Op
